@@ -33,6 +33,8 @@ var shapeData = []interface{}{
 }
 
 // shapeOracle checks the C10 contract of CreateEvaluator / CreateFilter / Parse on one input.
+var shapeCalls int
+
 func shapeOracle(o *Out, input string) {
 	var perr error
 	var pval interface{}
@@ -56,6 +58,36 @@ func shapeOracle(o *Out, input string) {
 	}()
 	if (ev == nil) == (cerr == nil) {
 		o.finding(Finding{Property: "C10", Kind: "failing-input", What: "CreateEvaluator returned both or neither", Request: "parse 0 " + hx(input)})
+	}
+	// the same with every other option set, in particular a step budget that runs out
+	shapeCalls++
+	if shapeCalls%4 == 0 || len(input) < 12 {
+		budgets := []uint64{1, 2, 7, 100, 517, 5000, 1 << 40, 1 << 63, ^uint64(0)}
+		b := budgets[shapeCalls/4%len(budgets)]
+		for _, opts := range [][]bexpr.Option{
+			{bexpr.WithMaxExpressions(b)},
+			{bexpr.WithMaxExpressions(b), bexpr.WithTagName("json"), bexpr.WithUnknownValue(nil)},
+			{nil, bexpr.WithHookFn(nil), bexpr.WithMaxExpressions(0)},
+		} {
+			var ev2 *bexpr.Evaluator
+			var err2 error
+			func() {
+				defer func() {
+					if r := recover(); r != nil {
+						o.finding(Finding{Property: "C10", Kind: "failing-input", What: fmt.Sprintf("CreateEvaluator with options (budget %d) panicked", b), Detail: fmt.Sprint(r), Request: fmt.Sprintf("parse %d %s", b, hx(input))})
+						err2 = fmt.Errorf("panic")
+					}
+				}()
+				ev2, err2 = bexpr.CreateEvaluator(input, opts...)
+			}()
+			o.meta.Cases++
+			if (ev2 == nil) == (err2 == nil) {
+				o.finding(Finding{Property: "C10", Kind: "failing-input", What: fmt.Sprintf("CreateEvaluator with options (budget %d) returned both or neither", b), Request: fmt.Sprintf("parse %d %s", b, hx(input))})
+			}
+			if err2 == nil && cerr != nil {
+				o.finding(Finding{Property: "C10", Kind: "failing-input", What: "an option makes CreateEvaluator accept a string it otherwise rejects", Request: fmt.Sprintf("parse %d %s", b, hx(input))})
+			}
+		}
 	}
 	if (perr == nil) != (cerr == nil) {
 		o.finding(Finding{Property: "C10", Kind: "failing-input", What: "Parse and CreateEvaluator disagree on acceptance", Request: "parse 0 " + hx(input)})
